@@ -63,6 +63,76 @@ func liveProfile() Profile {
 	return p
 }
 
+func takerateProfile() Profile {
+	p := baseProfile()
+	p.Name = "takerate"
+	p.Weights = map[string]int{KDelegate: 24, KUndelegate: 10, KRedelegate: 5, KClaim: 2, KBlock: 40, KUpdate: 5, KParams: 3, KSlashHook: 1, KCreate: 1, KDonate: 1}
+	p.TakeRates = []string{"0", "0.000000000000000001", "0.00001", "0.001", "0.1", "0.5", "0.999999"}
+	p.Delays = []int64{0, 0, 0, sec, 7 * day}
+	p.Intervals = []int64{1, sec, 300 * sec, 300 * sec, day}
+	p.ChRates = []string{"1", "1", "0.5", "0.99"}
+	return p
+}
+
+func powerProfile() Profile {
+	p := baseProfile()
+	p.Name = "power"
+	p.Weights = map[string]int{KDelegate: 20, KUndelegate: 8, KRedelegate: 6, KClaim: 2, KBlock: 30, KNatDel: 8, KNatUndel: 8, KNatRedel: 4, KSlash: 6, KSlashHook: 1, KJail: 3, KUnjail: 3, KUpdate: 4, KMaxVals: 2, KCreate: 1, GQuietNative: 6}
+	p.Delays = []int64{0, 0, 0, sec, 7 * day}
+	p.TakeRates = []string{"0", "0", "0.001", "0.5"}
+	p.ChRates = []string{"1", "1", "0.5", "0.99"}
+	p.HugeAmounts = false
+	return p
+}
+
+func init() {
+	register(&Spec{
+		ID:      "C09",
+		Profile: func(tier string) Profile { return tierSteps(takerateProfile(), tier) },
+		Oracles: func() []Oracle { return []Oracle{&OracleC09{}} },
+		NonTrivial: func(x *Exec) bool {
+			return x.Has("c09:deduction") && (x.Has("c09:multi-interval-deduction") || x.Has("c09:deposit-between-deductions"))
+		},
+		Rule: "stateful rapid histories, 'takerate' profile (rates 1e-18..0.999999, claim intervals 1ns..1d, sub-/multi-interval and irregular block steps, deposits and withdrawals between deductions, governance rate changes, warm-up assets); oracle = transition relation of every end-of-block: exact-rational compounding floor(T*(1-r)^n) within the stated Power() tolerance, exact transfer custody->fee collector observed at the block boundary, clock = c+n*I <= T, shares untouched, non-chargeable assets unchanged; non-trivial = a deduction with n>=2 whole intervals or with a deposit since the previous deduction; distinct = distinct concrete op list",
+	})
+	register(&Spec{
+		ID: "C14",
+		Profile: func(tier string) Profile {
+			p := takerateProfile()
+			p.Name = "decay"
+			p.ChRates = []string{"0.000000000000000001", "0.5", "0.9", "0.99", "1", "1.01", "2"}
+			p.ChInts = []int64{0, 1, sec, 300 * sec, day}
+			p.Weights[KUpdate] = 10
+			p.Weights[KClaim] = 6
+			p.NAssetsMin = 2
+			return tierSteps(p, tier)
+		},
+		Oracles: func() []Oracle { return []Oracle{OracleC14{}} },
+		NonTrivial: func(x *Exec) bool {
+			return x.Has("c14:multi-interval-decay") || x.Has("c14:several-assets-decay-in-one-block")
+		},
+		Rule: "stateful rapid histories, 'decay' profile (change rates 1e-18..2, intervals 0..1d, >=2 assets, governance updates, sub-/multi-interval block steps); oracle = weight within range after every step; at every end-of-block each asset with a due decay step follows clamp(w*rate^n) (exact rational, stated Power() tolerance) and its clock advances by n whole intervals, others untouched; claims during warm-up pay nothing; non-trivial = a multi-interval decay step or several assets decaying in one block; distinct = distinct concrete op list. (Non-retroactivity of weight changes on rewards is decided by C13's reference.)",
+	})
+	register(&Spec{
+		ID:      "C10",
+		Profile: func(tier string) Profile { return tierSteps(powerProfile(), tier) },
+		Oracles: func() []Oracle { return []Oracle{OracleC10{}} },
+		NonTrivial: func(x *Exec) bool {
+			return x.Has("c10:validator-with-target>0") && x.Has("c10:native-op-slash-or-status-in-block")
+		},
+		Rule: "stateful rapid histories, 'power' profile (alliance ops mixed with native delegate / partial and full undelegate / redelegate, real slashes, jail/unjail, max-validators changes, weight vectors incl. 0, warm-up assets, quiet blocks); oracle = at every block boundary each bonded validator's module stake equals the target recomputed from the boundary state; non-bonded validators untouched by the alliance end-blocker; non-trivial = a boundary with a positive target in a history where a block contained a native op, real slash or jail/unjail; distinct = distinct concrete op list",
+	})
+	register(&Spec{
+		ID:      "C11",
+		Profile: func(tier string) Profile { return tierSteps(powerProfile(), tier) },
+		Oracles: func() []Oracle { return []Oracle{&OracleC11{}} },
+		NonTrivial: func(x *Exec) bool {
+			return x.Has("c11:rebalanced-up-and-down") || x.Has("c11:real-slash-with-module-stake")
+		},
+		Rule: "stateful rapid histories, 'power' profile; oracle = staking-denom supply net of the module's own stake is unchanged by every alliance op (exactly) and by every block (to within one unit per adjusted validator, harness-minted fees accounted), real slashes only burn from the staking pools, module account holds no staking-denom coins at block boundaries, SupplyOf/TotalSupply equal supply minus the independently recomputed alliance-bonded amount; non-trivial = history with a rebalance up and a rebalance down, or a real slash of a validator carrying module stake; distinct = distinct concrete op list",
+	})
+}
+
 func init() {
 	register(&Spec{
 		ID:         "C05",
